@@ -448,8 +448,7 @@ func (in *inst) Canon() string {
 			)
 			if bm != nil {
 				bits = bm.Slice()
-				if rv := reflect.ValueOf(bm); rv.Kind() == reflect.Pointer {
-					p := rv.Pointer()
+				if p, ok := identity(bm); ok {
 					if _, ok := aliases[p]; !ok {
 						aliases[p] = len(aliases)
 					}
@@ -461,6 +460,26 @@ func (in *inst) Canon() string {
 		sb.WriteString("}")
 	}
 	return sb.String()
+}
+
+// identity is the address of the roaring bitmap behind a cardinality.Duplex (cardinality.bitmap64 is a struct with one
+// pointer field), so that two cache entries sharing one mutable bitmap are told apart from two equal copies.
+func identity(d cardinality.Duplex[uint64]) (uintptr, bool) {
+	rv := reflect.ValueOf(d)
+	for rv.Kind() == reflect.Interface {
+		rv = rv.Elem()
+	}
+	if rv.Kind() == reflect.Pointer {
+		return rv.Pointer(), true
+	}
+	if rv.Kind() == reflect.Struct {
+		for i := 0; i < rv.NumField(); i++ {
+			if f := rv.Field(i); f.Kind() == reflect.Pointer {
+				return f.Pointer(), true
+			}
+		}
+	}
+	return 0, false
 }
 
 func histProblem(s *spec, capacity, depth int) *bfs.Problem {
